@@ -207,6 +207,11 @@ def id_guard(ctx, M, RULE):
             ok = ok and f.op_origin(rt["args"][1])[0] == "param"
             # the subtraction too
             ok = ok and all(f.edge_dominates(e, s["bb"]) for e in some)
+        if len(hooks) == 1:
+            hb0 = hooks[0][0]
+            ctx.check("WU" in f.held_before_term(hb0), RULE, "%s|hook-under-total-weight-lock" % f.name,
+                      "the store-removal hook runs while the total-weight write lock is held: the admission path takes that lock before it can re-insert the key, so 'release the id, then remove the entry by key' cannot be interleaved with a re-put of the same key",
+                      f.where(hb0), "held at the hook call: %s" % sorted(f.held_before_term(hb0)))
         ctx.check(ok, RULE, "%s|release-and-hook-only-if-id-present" % f.name,
                   "weight is released and the store-removal hook runs only if the id was still in the weight map, and the hook receives the key recorded with that id", f.where())
     ctx.floor(RULE, "release functions with a removal hook", n, 1)
